@@ -46,7 +46,7 @@ def gen_case(seed, tier="quick"):
             st["vals"] = [round(rng.uniform(-9, 9), 3) for _ in range(8)]
         steps.append(st)
     return {"kind": "deriv19", "seed": seed, "sys": list(sys_), "mom": mom, "names": names, "gnames": gn, "shape": shape, "dtype": dt,
-            "cols": cols, "how": how, "steps": steps, "fresh": tier == "thorough" and rng.random() < 0.15}
+            "cols": cols, "how": how, "steps": steps, "fresh": rng.random() < (0.1 if tier == "thorough" else 0.004)}
 
 
 def _viol(aspect, i, st, detail):
@@ -285,6 +285,7 @@ def run_case(case, vector):
         elif k == "pickle":
             stats["restarts"] += 1
             if case.get("fresh"):
+                stats["fresh"] = stats.get("fresh", 0) + 1
                 new = derive(L, _fresh_restart, lambda x: x.copy(), origin="pickle(fresh interpreter)")
             else:
                 proto = (2, 4, pickle.HIGHEST_PROTOCOL)[r[0] % 3]
@@ -416,6 +417,7 @@ def _done(viol, stats, case):
     stats["nontrivial"] = stats["writes"] > 0 or stats["restarts"] > 0 or stats["arrays"] >= 2
     stats["mut_ops"] = stats["writes"]
     stats["extra"] = {"arrays_derived": stats.pop("arrays"), "alias_pairs_checked": stats.pop("alias_pairs"),
-                      "writes_through_aliases": stats["writes"], "pickle_restarts": stats.pop("restarts")}
+                      "writes_through_aliases": stats["writes"], "pickle_restarts": stats.pop("restarts"),
+                      "fresh_interpreter_restarts": stats.pop("fresh", 0)}
     stats.pop("writes")
     return {"viol": viol, "stats": stats}
